@@ -1,0 +1,15 @@
+//go:build verif
+
+package bondmachine
+
+import "sync/atomic"
+
+// VerifYield, when set, is called by every processor worker right before it steps its
+// processor, so that a verification harness can perturb the goroutine schedule from a seed.
+var VerifYield atomic.Pointer[func(procId int)]
+
+func verifYield(procId int) {
+	if f := VerifYield.Load(); f != nil {
+		(*f)(procId)
+	}
+}
